@@ -32,7 +32,7 @@ from hsim.worlds.udp import Arrival, UdpWorld
 
 PROPERTY = "C14"
 CHUNK = {"quick": 12, "thorough": 30}
-PROBES = ["avatar_child_announced", "seat_killed_under_avatar", "avatar_orphan_survives_kill_of_unknown_seat",
+PROBES = ["observer_notified", "avatar_child_announced", "seat_killed_under_avatar", "avatar_orphan_survives_kill_of_unknown_seat",
           "orphan_adopted", "cascade_depth_2", "local_id_reuse_after_kill", "cross_region_move",
           "kill_unknown_with_orphans", "pending_both_kinds_on_killed_object", "same_object_twice_in_one_message",
           "reparent", "kill_of_parent", "teardown_with_pending", "precondition_broken", "duplicate_update_delivered",
@@ -75,6 +75,10 @@ def gen_plan(rng: random.Random, tier: str) -> dict:
         "auto_missing": rng.random() < 0.3,
         # seated avatars: children that the code (like the reference viewer) exempts from cascading kills
         "avatars": rng.random() < 0.35,
+        # other parties watching the scene: an addon's object hooks and a subscriber of the object event stream,
+        # failing on a pseudo-random subset of notifications - the bookkeeping must not notice
+        "observers": rng.choice([None, None, "observe", "raise", "raise"]),
+        "observer_seed": rng.randrange(1 << 30),
         "p_delay": rng.choice([0.0, 0.3, 0.6]) if lossy else 0.0,
         "p_dup": rng.choice([0.0, 0.1, 0.25]) if lossy else 0.0,
         "p_drop": rng.choice([0.0, 0.0, 0.05]) if lossy else 0.0,
@@ -150,6 +154,7 @@ def gen_plan(rng: random.Random, tier: str) -> dict:
                     avatars[r].add(local)
                     entries.append([local, full, parent, "av"])
                 else:
+                    avatars[r].discard(local)
                     entries.append([local, full, parent])
             if rng.random() < 0.1 and entries:
                 entries.append(list(entries[0]))            # same object twice in one message
@@ -164,6 +169,7 @@ def gen_plan(rng: random.Random, tier: str) -> dict:
             full = rng.choice(free_fulls)
             scene[r][local] = (full, 0)
             where[full] = (r, local)
+            avatars[r].discard(local)
             steps.append({"at": t, "op": "upd", "r": r, "form": rng.choice(["full", "compressed"]),
                           "entries": [[local, full, 0]], "salt": salt, "fate": fate()})
         elif x < 0.50 and scene[r]:
@@ -217,7 +223,7 @@ def gen_plan(rng: random.Random, tier: str) -> dict:
                     # orphans waiting for it die with it
                     for l2 in [l for l, (f, p) in scene[r].items() if p == local and l not in avatars[r]]:
                         for d_ in descendants(r, l2) + [l2]:
-                            if d_ in scene[r]:
+                            if d_ in scene[r] and d_ not in avatars[r]:
                                 where.pop(scene[r][d_][0], None)
                                 del scene[r][d_]
                                 ever_killed[r].add(d_)
@@ -232,6 +238,7 @@ def gen_plan(rng: random.Random, tier: str) -> dict:
             local = rng.choice(leafs)
             full, _p = scene[r].pop(local)
             new_local = rng.choice(dst_free)
+            avatars[1 - r].discard(new_local)
             scene[1 - r][new_local] = (full, 0)
             where[full] = (1 - r, new_local)
             steps.append({"at": t, "op": "upd", "r": 1 - r, "form": "full", "entries": [[new_local, full, 0]],
@@ -285,6 +292,8 @@ def simplify_plan(plan):
         yield {**plan, "cfg": {**cfg, "deferred": True}}
     if cfg.get("auto_request"):
         yield {**plan, "cfg": {**cfg, "auto_request": False}}
+    if cfg.get("observers"):
+        yield {**plan, "cfg": {**cfg, "observers": None}}
 
 
 # ----------------------------------------------------------------------------------------
@@ -356,6 +365,7 @@ class SceneModel:
                     if objs[local][1] != parent:
                         probes("reparent")
                     objs[local][1] = parent
+                    objs[local][2] = av      # an object is of the kind it was last announced as
             else:
                 if local in objs:
                     self.broken = "local id given to two live objects"
@@ -421,9 +431,31 @@ def run_plan(plan: dict) -> RunResult:
 
     with SimEnv(plan.get("seed", 0), log_level=logging.ERROR) as env:
         loop = env.loop
-        world = UdpWorld(env, cfg)
+        class HarnessObserverError(Exception):
+            pass
+        obs_rng = random.Random(cfg.get("observer_seed", 0))
+        obs_mode = cfg.get("observers")
+
+        def observed(where):
+            res.probe("observer_notified")
+            if obs_mode == "raise" and obs_rng.random() < 0.4:
+                res.fault("observer_raised")
+                raise HarnessObserverError(where)
+
+        class ObserverAddon:
+            def handle_object_updated(self, session_, region_, obj, updated_props, msg=None):
+                observed("handle_object_updated")
+
+            def handle_object_killed(self, session_, region_, obj):
+                observed("handle_object_killed")
+
+        world = UdpWorld(env, cfg, addons=[ObserverAddon()] if obs_mode else None)
         wmodel = WireModel(world, eager=not cfg.get("deferred", True))
         spec = world.login(0, cfg["regions"][0])
+        if obs_mode:
+            from hippolyzer.lib.client.object_manager import ObjectUpdateType
+            for ut in ObjectUpdateType:
+                spec.session.objects.events.subscribe(ut, lambda ev: observed("object event subscriber"))
         wmodel.add_session(spec)
         viewer = world.add_viewer(0)
         viewer.session_idx = 0
@@ -555,6 +587,8 @@ def run_plan(plan: dict) -> RunResult:
                 if msg.startswith("Failed in handler") or msg.startswith("Failed in session message handler") \
                         or msg.startswith("Failed in region message handler") or msg.startswith("Barfed while handling"):
                     exc = rec.exc_info[1] if rec.exc_info else None
+                    if type(exc).__name__ == "HarnessObserverError":
+                        continue     # the harness's own failing observer, contained by the event dispatcher
                     out.append((msg[:60], type(exc).__name__ if exc else "?", repr(exc)[:160]))
             log_mark[0] = len(recs)
             return out
